@@ -522,6 +522,56 @@ func All() []Driver {
 			v, d := sf.e.Value(c)
 			return show(v, d)
 		}})
+	// D18: expressions and bodies the parser produced while recovering from syntax errors; the diagnostics
+	// an evaluation returns must refer to that evaluation's own context
+	ds = append(ds, Driver{Name: "D18-recovered-syntax-3", Doc: "expressions parsed with recoverable errors (l..a, l.[0].a, (n +), unclosed call): every goroutine evaluates them with its own context; returned diagnostics must point at that context", Threads: 3,
+		Setup: func() any {
+			var es []hcl.Expression
+			for _, src := range []string{"l..a", "l.[0].a", "[n, (n +), s]", "join(l[*].a", "l[*]..a", "{a = n, b = }"} {
+				e, _ := hclsyntax.ParseExpression([]byte(src), "t.hcl", hcl.InitialPos)
+				if e != nil {
+					es = append(es, e)
+				}
+			}
+			f, _ := hclsyntax.ParseConfig([]byte("a = l..a\nb = n\nblk {\n  c = s..x\n}\n"), "t.hcl", hcl.InitialPos)
+			if f != nil && f.Body != nil {
+				if attrs, _ := f.Body.JustAttributes(); attrs != nil {
+					var names []string
+					for n := range attrs {
+						names = append(names, n)
+					}
+					sort.Strings(names)
+					for _, n := range names {
+						es = append(es, attrs[n].Expr)
+					}
+				}
+			}
+			return es
+		},
+		Thread: func(shared any, i int) string {
+			ctx := ctxFor(i)
+			var out []string
+			for _, e := range shared.([]hcl.Expression) {
+				v, diags := e.Value(ctx)
+				own := "own-context"
+				for _, d := range diags {
+					if d.EvalContext == nil {
+						continue
+					}
+					found := false
+					for c := d.EvalContext; c != nil; c = c.Parent() {
+						if c == ctx {
+							found = true
+						}
+					}
+					if !found {
+						own = "FOREIGN-CONTEXT in diagnostic " + d.Summary
+					}
+				}
+				out = append(out, show(v, diags)+" | "+own+fmt.Sprintf(" | vars=%d", len(e.Variables())))
+			}
+			return strings.Join(out, "\n")
+		}})
 	for i := range ds {
 		d := &ds[i]
 		body := strings.HasPrefix(d.Name, "D8-") || strings.HasPrefix(d.Name, "D16-") || strings.HasPrefix(d.Name, "D13-") || strings.HasPrefix(d.Name, "D14-") || strings.HasPrefix(d.Name, "D15-") || strings.HasPrefix(d.Name, "D9-") || strings.HasPrefix(d.Name, "D11-")
